@@ -901,6 +901,78 @@ fn huge_cases(r: &mut Runner) {
     }
 }
 
+/// pacing of objects outside the model's domain (engine-only oracle, see probe.rs): Reed-Solomon objects with
+/// repair packets, gzip content-encoded objects, No-Code control
+fn pace_probe_cases(r: &mut Runner) {
+    let mut i = 0;
+    for (kind, parity) in [("nc", 0u64), ("rs", 1), ("rs", 2), ("rs", 3), ("gz", 0)] {
+        for n_sym in [4u64, 9, 40, 200] {
+            for target in [4 * S, 10 * S] {
+                i += 1;
+                r.begin(&format!("paceprobe-{}", i));
+                r.op(format!("sched pace {} {} {} {} {}", kind, n_sym, parity, target, target / 400));
+                r.finish();
+            }
+        }
+    }
+}
+
+/// interleave window of Reed-Solomon objects with repair packets (engine-only oracle, see probe.rs)
+fn window_probe_cases(r: &mut Runner) {
+    let mut i = 0;
+    for parity in [0u64, 1, 2, 3] {
+        for nb_blocks in [1u64, 2, 4, 7] {
+            for k in [1u64, 2, 5] {
+                for il in [1u64, 2, 3, 4] {
+                    i += 1;
+                    r.begin(&format!("windowprobe-{}", i));
+                    r.op(format!("sched window {} {} {} {}", parity, nb_blocks, k, il));
+                    r.finish();
+                }
+            }
+        }
+    }
+}
+
+/// instants in NTP era 1 (after 2036-02-07) and paced objects with two transfers (second transfer's start and due
+/// times, pacing gate carried over), polled finely around every due instant
+fn era1_and_paced2_cases(r: &mut Runner) {
+    let era1: u64 = (4_294_967_296 - 2_208_988_800 + 100) * S;
+    let mut i = 0;
+    for base in [T0, era1] {
+        for full in [true, false] {
+            for n in [1u64, 3] {
+                for car in [None, Some((false, 2 * S)), Some((true, 5 * S))] {
+                    for kind in ['d', 't'] {
+                        i += 1;
+                        r.begin(&format!("paced2-{}", i));
+                        r.now = base;
+                        let cfg = NewSpec { full, fdt_car: (false, 3600 * S), fdt_dur: 3600 * S, start_id: 1, il: 1, efdt: 1400, fits: true, queues: vec![(0, 1)] };
+                        r.op(cfg.line());
+                        let mut a = AddSpec::simple(0, n);
+                        a.maxc = 2;
+                        a.car = car;
+                        a.start = Some(base + S);
+                        a.target = Some((kind, if kind == 't' { base + 4 * S } else { 3 * S }));
+                        r.op(a.line());
+                        r.op(format!("sched publish {}", r.now));
+                        for _ in 0..60 {
+                            r.read_until_none(5000);
+                            if r.dead {
+                                break;
+                            }
+                            r.now += S / 4;
+                        }
+                        r.op("sched remove 1".into());
+                        r.read_until_none(5000);
+                        r.finish();
+                    }
+                }
+            }
+        }
+    }
+}
+
 /// stream sources whose seek / read fails after the object was added (engine-only oracle, see probe.rs):
 /// seek failure at the k-th transfer start, transient and permanent, read failure inside a transfer
 fn stream_fault_cases(r: &mut Runner) {
@@ -940,6 +1012,9 @@ pub fn run(ctx: &mut Ctx, _eng: &mut dyn Engine) {
     clock_back_cases(&mut r);
     huge_cases(&mut r);
     stream_fault_cases(&mut r);
+    pace_probe_cases(&mut r);
+    window_probe_cases(&mut r);
+    era1_and_paced2_cases(&mut r);
     removal_cases(&mut r, thorough);
     grid_cases(&mut r, &mut rng, thorough);
     timing_cases(&mut r, &mut rng, if thorough { 3000 } else { 300 });
